@@ -387,6 +387,7 @@ class SymExec:
         self.entry_store = entry_store
         self.nevents = 0
         self.types = {}
+        self.dn = {}
         self._modset = {}
         self.mut_params = set()
         for i in range(1, body.argc + 1):
@@ -664,6 +665,9 @@ class SymExec:
                 return ("agg", d["struct"], d["struct"].rsplit("::", 1)[-1], None,
                         tuple((n, self.decode(v)) for n, v in d["fields"]))
             if "enum" in d:
+                if "payload" in d:
+                    pl = tuple((str(i), self.decode(x)) for i, x in enumerate(d["payload"]))
+                    return ("agg", d["enum"], d.get("variant"), d.get("vi"), pl)
                 return ("enum", d["enum"], d.get("variant"))
         return ("constopaque", str(d)[:40])
 
@@ -707,7 +711,12 @@ class SymExec:
         if k == "un":
             return o.un(rv["op"], self.operand(st, fr, rv["a"]))
         if k == "discr":
-            return o.discr(self.read_place(st, fr, rv["pl"]))
+            d = o.discr(self.read_place(st, fr, rv["pl"]))
+            if d[0] == "discr":
+                n = self.variant_count(rv.get("of"))
+                if n:
+                    self.dn[d] = n
+            return d
         if k == "agg":
             ops_ = tuple(self.operand(st, fr, x) for x in rv["ops"])
             ak = rv["ak"]
@@ -883,6 +892,10 @@ class SymExec:
                 other = t["otherwise"]
                 oblk = fr.body.blocks[other]
                 other_ok = not (oblk["term"]["k"] == "unreachable" and not oblk["stmts"])
+                if other_ok and d in self.dn:
+                    left = set(range(self.dn[d])) - {v for v, _ in arms} - set(excl)
+                    if not left:
+                        other_ok = False
                 # a bool/discr switch whose arms cover the domain
                 nstates = []
                 for v, b2 in succ:
@@ -938,8 +951,39 @@ class SymExec:
                     return b, k, d[1] == "Eq"
         return None
 
+    def eq_some_enum(self, d):
+        """Eq/Ne(X, Some(enum const)) -> (X, payload discriminant, is_eq)"""
+        if d[0] == "bin" and d[1] in ("Eq", "Ne"):
+            for x, c in ((d[2], d[3]), (d[3], d[2])):
+                if c[0] == "agg" and c[2] == "Some" and len(c[4]) == 1 and c[4][0][1][0] == "enum" and x[0] != "agg":
+                    k = self.ops.discr_of(c[4][0][1][1], c[4][0][1][2])
+                    if k is not None:
+                        return x, k, d[1] == "Eq"
+        return None
+
     def implied(self, st, d):
         """value of condition d implied by earlier decisions, or None"""
+        r2 = self.eq_some_enum(d)
+        if r2 is not None:
+            x, k, is_eq = r2
+            dx = ("discr", x)
+            dp = ("discr", ("field", ("downcast", x, "Some"), "0"))
+            if st.decided.get(dx) == 0:
+                return int(not is_eq)
+            if dp in st.decided:
+                same = st.decided[dp] == k and st.decided.get(dx, 1) == 1
+                if st.decided[dp] != k:
+                    return int(not is_eq)
+                if dx in st.decided and same:
+                    return int(is_eq)
+            if k in st.excluded.get(dp, ()):
+                return int(not is_eq)
+        if d[0] == "isempty":
+            ln = ("len", d[1])
+            if ln in st.decided:
+                return int(st.decided[ln] == 0)
+            if 0 in st.excluded.get(ln, ()):
+                return 0
         r = self.eq_enum(d)
         if r is None:
             return None
@@ -953,6 +997,22 @@ class SymExec:
         return None
 
     def propagate(self, st, d, v):
+        r2 = self.eq_some_enum(d)
+        if r2 is not None and isinstance(v, int):
+            x, k, is_eq = r2
+            dx = ("discr", x)
+            dp = ("discr", ("field", ("downcast", x, "Some"), "0"))
+            if bool(v) == is_eq:
+                st.decided.setdefault(dx, 1)
+                st.decided.setdefault(dp, k)
+            elif st.decided.get(dx) == 1:
+                st.excluded[dp] = frozenset(st.excluded.get(dp, frozenset()) | {k})
+        if d[0] == "isempty" and isinstance(v, int):
+            ln = ("len", d[1])
+            if v == 1:
+                st.decided.setdefault(ln, 0)
+            else:
+                st.excluded[ln] = frozenset(st.excluded.get(ln, frozenset()) | {0})
         r = self.eq_enum(d)
         if r is None or not isinstance(v, int):
             return
@@ -962,6 +1022,18 @@ class SymExec:
             st.decided.setdefault(dx, k)
         else:
             st.excluded[dx] = frozenset(st.excluded.get(dx, frozenset()) | {k})
+
+    def variant_count(self, ty):
+        if not ty:
+            return None
+        ty = ty.lstrip("&").replace("mut ", "").strip()
+        a = self.facts.adts.get(ty)
+        if a and a["kind"] == "Enum":
+            return len(a["variants"])
+        for pre in ("core::option::Option<", "core::result::Result<", "core::ops::control_flow::ControlFlow<"):
+            if ty.startswith(pre):
+                return 2
+        return None
 
     def is_bool(self, fr, t):
         return t.get("dty") == "bool"
@@ -1003,6 +1075,7 @@ class SymExec:
                    targs=targs, bb=fr.bb, fn=fr.body.key, line=t["sp"]["line"], ncond=len(st.conds),
                    ret=None, depth=depth)
         ev.extra = {"exp": t["sp"]["exp"]}
+        ev.extra["pointees"] = {i: self.load(st, a[1], a[2]) for i, a in enumerate(args) if a[0] == "ptr" and a[1][0] == "L"}
         if val is None:
             m = self.model(st, fr, name, args, targs, ev)
             if m is not None:
